@@ -173,6 +173,25 @@ def run(ctx):
         pmeta.append({"tag": [t["base"], t["ops"]], "base": c0, "transformed": c1, "engine": eng})
         ctx.evaluations += 3
         ctx.case([t["base"], t["ops"]])
+    # recorded finding D34: a text column under a declared COMMA / TAB delimiter, unpadded vs padded delimiters
+    for b, btext in sorted(bases.items()):
+        dl = [ln for ln in btext if ln["k"] == "item" and ln["m"] == "DLM"]
+        if not dl or not any(ln["k"] == "data" and any(c["cls"] == "TEXT" for c in ln["cells"]) for ln in btext):
+            continue
+        for rep in range(3):
+            fixed = {"names": "std", "null": "std", "spell_seed": rng.random(), "nl": "\n", "final_nl": True, "plain": True}
+            c0 = lastext.concretise(btext, random.Random(rep), dict(fixed))
+            c1 = lastext.concretise(btext, random.Random(rep), dict(fixed, padtext=True))
+            kinds, sec = [], "none"
+            for ln in btext:
+                if ln["k"] == "title":
+                    sec = ln["sec"]
+                kinds.append(sec)
+            pairs.append({"op": "pair", "kinds": kinds, "wrapped": False, "ops": [{"op": "delimpad-text", "at": 0}],
+                          "d0": digest_of(c0), "d1": digest_of(c1)})
+            pmeta.append({"tag": [b, "delimpad-text"], "base": c0, "transformed": c1})
+            ctx.evaluations += 2
+            ctx.case(["delimpad-text", b, rep])
     # code -> spec: corpus and writer output
     sources = []
     for fn, text in corpus_texts():
